@@ -1,6 +1,219 @@
-//! C15 extras: MTBDD round trips, TDD export-only.
+//! C15 extras: MTBDD round trips (I64 and F64 terminals), TDD export (the importer does not
+//! accept ternary nodes - a compile-time assertion -, so only the export side is checked). The mode the exporter
+//! picks is not prescribed; what counts is that its file is accepted and round-trips.
+use std::collections::HashMap;
 use std::io::Write;
 
-use crate::engine::Cfg;
+use oxidd::{Function, Manager, ManagerRef};
+use proptest::prelude::*;
+use serde::{Deserialize, Serialize};
+use serde_json::json;
 
-pub fn add_jobs<'a>(_cfg: &'a Cfg, _jobs: &mut Vec<Box<dyn FnMut(&mut dyn Write) + 'a>>, _names: &mut Vec<String>) {}
+use crate::c02::order_from_keys;
+use crate::engine::*;
+use crate::vhist::{vbuild, vmk_manager};
+use crate::vkinds::*;
+use crate::vmodel::*;
+
+#[derive(Clone, Debug, Serialize, Deserialize)]
+pub struct VCase {
+    pub n: u32,
+    pub order_keys: Vec<u16>,
+    /// per root: palette selectors for the 2^n (3^n) table entries
+    pub tables: Vec<Vec<u8>>,
+    pub v3: bool,
+    pub named: bool,
+}
+
+fn vcase_strategy() -> impl Strategy<Value = VCase> {
+    (2u32..=4, proptest::collection::vec(any::<u16>(), 8), proptest::collection::vec(proptest::collection::vec(any::<u8>(), 81), 1..4), any::<bool>(), any::<bool>()).prop_map(|(n, order_keys, tables, v3, named)| VCase { n, order_keys, tables, v3, named })
+}
+
+#[derive(Default, Serialize, Deserialize)]
+struct VStat {
+    nontrivial: bool,
+    checks: u64,
+}
+
+/// build the functions, export them, load the header of the written file
+macro_rules! export_part {
+    ($K:ty, $c:expr, $st:expr) => {{
+        type K = $K;
+        let c: &VCase = $c;
+        let order = order_from_keys(c.n, &c.order_keys);
+        let mr = vmk_manager::<K>(c.n, &order, 1 << 8, 1);
+        let pal = <K as VKind>::palette();
+        let tables: Vec<VT<<K as VKind>::V>> = c.tables.iter().map(|sel| VT::from_fn(c.n, <K as VKind>::BASE, |i| pal[sel[i % sel.len()] as usize % pal.len().min(6)].clone())).collect();
+        let mut memo = HashMap::new();
+        let fns: Vec<<K as VKind>::F> = tables.iter().map(|t| vbuild::<K>(&mr, t, &mut memo)).collect::<Result<_, _>>()?;
+        drop(memo);
+        if c.named {
+            mr.with_manager_exclusive(|m| {
+                for v in 0..c.n {
+                    let _ = m.set_var_name(v, format!("x{v}"));
+                }
+            });
+        }
+        // export (binary mode is not supported for these kinds: the exporter falls back to ASCII)
+        use oxidd_dump::dddmp::{DDDMPVersion, ExportSettings};
+        let mut buf: Vec<u8> = vec![];
+        let es = ExportSettings::default().version(if c.v3 { DDDMPVersion::V3_0 } else { DDDMPVersion::V2_0 }).diagram_name("vdd");
+        let r = std::panic::catch_unwind(std::panic::AssertUnwindSafe(|| mr.with_manager_shared(|m| es.export(&mut buf, m, fns.iter())))).map_err(|e| format!("export-panic: {}", panic_msg(&e)))?;
+        r.map_err(|e| format!("export-error: exporter failed on handles of its own manager: {e}"))?;
+        $st.checks += 1;
+        let text = String::from_utf8_lossy(&buf).to_string();
+        let mut cur = std::io::Cursor::new(&buf[..]);
+        let header = std::panic::catch_unwind(std::panic::AssertUnwindSafe(|| oxidd_dump::dddmp::DumpHeader::load(&mut cur))).map_err(|e| format!("header-panic: {}", panic_msg(&e)))?.map_err(|e| format!("own-export-rejected: header of the exporter's own file is rejected: {e}"))?;
+        $st.checks += 1;
+        if header.num_roots() != fns.len() || header.num_vars() != c.n {
+            return Err(format!("header-metadata: {} roots / {} variables in the header, exported {} / {}", header.num_roots(), header.num_vars(), fns.len(), c.n));
+        }
+        let nodes_line = text.lines().find(|l| l.starts_with(".nnodes")).unwrap_or("").to_string();
+        if header.num_nodes().to_string() != nodes_line.trim_start_matches(".nnodes").trim() {
+            return Err(format!("header-metadata: num_nodes() = {} but the file says '{nodes_line}'", header.num_nodes()));
+        }
+        (mr, order, tables, fns, buf, header.support_var_order().to_vec())
+    }};
+}
+
+macro_rules! export_import {
+    ($fname:ident, $K:ty) => {
+        fn $fname(c: &VCase) -> Result<VStat, String> {
+            type K = $K;
+            let mut st = VStat::default();
+            let (mr, order, tables, fns, buf, sv) = export_part!($K, c, st);
+            // same manager: the imported handles are the exported ones
+            let mut cur = std::io::Cursor::new(&buf[..]);
+            let header = oxidd_dump::dddmp::DumpHeader::load(&mut cur).map_err(|e| format!("own-export-rejected: {e}"))?;
+            let same = std::panic::catch_unwind(std::panic::AssertUnwindSafe(|| mr.with_manager_shared(|m| oxidd_dump::dddmp::import::<<K as VKind>::F>(&mut cur, &header, m, sv.iter().copied(), |_, e| Ok(e))))).map_err(|e| format!("import-panic: {}", panic_msg(&e)))?.map_err(|e| format!("own-export-rejected: importer rejects the exporter's file: {e}"))?;
+            st.checks += 1;
+            if same.len() != fns.len() || same.iter().zip(&fns).any(|(a, b)| a != b) {
+                return Err("roundtrip-same-manager: the imported handles differ from the exported ones".into());
+            }
+            drop(same);
+            // fresh manager whose order is set from the file's support order
+            let fresh = vmk_manager::<K>(c.n, &(0..c.n).collect::<Vec<u32>>(), 1 << 8, 1);
+            if sv.len() >= 2 {
+                <K as VKind>::set_var_order(&fresh, &sv, true);
+            }
+            let mut cur2 = std::io::Cursor::new(&buf[..]);
+            let header2 = oxidd_dump::dddmp::DumpHeader::load(&mut cur2).map_err(|e| format!("own-export-rejected: {e}"))?;
+            let imp = std::panic::catch_unwind(std::panic::AssertUnwindSafe(|| fresh.with_manager_shared(|m| oxidd_dump::dddmp::import::<<K as VKind>::F>(&mut cur2, &header2, m, sv.iter().copied(), |_, e| Ok(e))))).map_err(|e| format!("import-panic: {}", panic_msg(&e)))?.map_err(|e| format!("own-export-rejected: import into a fresh manager ordered by support_var_order fails: {e}"))?;
+            for (f, t) in imp.iter().zip(&tables) {
+                st.checks += 1;
+                let got = <K as VKind>::table(f, c.n);
+                if got != *t {
+                    return Err(format!("roundtrip-fresh-manager: imported table {:?}, exported {:?}", got.vals, t.vals));
+                }
+            }
+            let handles: Vec<&<K as VKind>::F> = imp.iter().collect();
+            <K as VKind>::audit(&fresh, &handles, true).map_err(|e| format!("roundtrip-audit: {e}"))?;
+            st.nontrivial = tables.len() >= 2 && tables.iter().any(|t| t.is_const().is_none()) && order.iter().enumerate().any(|(l, v)| l as u32 != *v);
+            Ok(st)
+        }
+    };
+}
+
+export_import!(case_i64, MtI64K);
+export_import!(case_f64, MtF64K);
+
+/// TDD: export only (the importer rejects ternary nodes at compile time); the file must be
+/// written, be in ASCII mode and carry a loadable header with the right metadata
+fn case_tdd(c: &VCase) -> Result<VStat, String> {
+    let mut st = VStat::default();
+    let (_mr, _order, tables, _fns, _buf, _sv) = export_part!(TddK, c, st);
+    st.nontrivial = tables.iter().any(|t| t.is_const().is_none());
+    Ok(st)
+}
+
+fn case_isolated(kind: &str, c: &VCase) -> Result<VStat, String> {
+    let out = isolated(120, |w| {
+        progress(&json!({"sig": format!("C15/{kind}/roundtrip/crash"), "case": {"kind": kind, "vcase": c}}).to_string());
+        let r = match kind {
+            "mtbdd-i64" => case_i64(c),
+            "mtbdd-f64" => case_f64(c),
+            _ => case_tdd(c),
+        };
+        let _ = writeln!(w, "{}", json!({"ok": r.as_ref().ok(), "err": r.as_ref().err()}));
+    });
+    match out.end {
+        End::Exit(0) => {
+            let v: serde_json::Value = out.lines.iter().filter_map(|l| serde_json::from_str(l).ok()).find(|v: &serde_json::Value| v.get("ok").is_some() || v.get("err").is_some()).unwrap_or(json!({"err": "crash: no verdict"}));
+            match v["err"].as_str() {
+                Some(e) => Err(e.to_string()),
+                None => serde_json::from_value(v["ok"].clone()).map_err(|e| e.to_string()),
+            }
+        }
+        End::Timeout => Err("timeout: watchdog".into()),
+        e => Err(format!("crash: child ended {e:?}")),
+    }
+}
+
+fn campaign(kind: &'static str, seed: u64, cases: u32, rep: &mut Report) {
+    let mut nt = 0u64;
+    let mut evals = 0u64;
+    let mut sample = None;
+    let out = crate::pt::run2(
+        seed,
+        cases,
+        &vcase_strategy(),
+        |_| {},
+        |c, r: &Result<VStat, String>| {
+            if let Ok(s) = r {
+                evals += s.checks;
+                if s.nontrivial {
+                    nt += 1;
+                    if sample.is_none() {
+                        sample = Some(json!({"kind": kind, "vcase": c}));
+                    }
+                }
+            }
+        },
+        |c| match case_isolated(kind, c) {
+            Err(m) if m.starts_with("timeout") => Ok(VStat::default()),
+            r => r,
+        },
+    );
+    rep.evaluations += evals;
+    rep.nontrivial += nt;
+    rep.class_n(&format!("{kind}.roundtrip_cases"), out.cases);
+    if let Some(s) = sample {
+        rep.sample(s);
+    }
+    if let Some((c, msg)) = out.failure {
+        rep.viol(format!("C15/{kind}/{}", crate::hrun::category(&msg)), msg, json!({"kind": kind, "vcase": c}));
+    }
+}
+
+pub fn add_jobs<'a>(cfg: &'a Cfg, jobs: &mut Vec<Box<dyn FnMut(&mut dyn Write) + 'a>>, names: &mut Vec<String>) {
+    for (i, kind) in ["mtbdd-i64", "mtbdd-f64", "tdd"].into_iter().enumerate() {
+        let seed = mix(cfg.seed ^ (0xc15_700 + i as u64));
+        let cases = cfg.t(600, 8000);
+        names.push(format!("vroundtrip/{kind}"));
+        jobs.push(Box::new(move |w: &mut dyn Write| {
+            let mut rep = Report::default();
+            campaign(kind, seed, cases, &mut rep);
+            rep.emit(w);
+        }));
+    }
+}
+
+/// `--replay` of a case recorded by this module
+pub fn replay(path: &str, case: &serde_json::Value) -> Option<i32> {
+    let c: VCase = serde_json::from_value(case["vcase"].clone()).ok()?;
+    let kind = case["kind"].as_str()?.to_string();
+    Some(match case_isolated(&kind, &c) {
+        Ok(_) => {
+            println!("replay: case passes");
+            0
+        }
+        Err(m) if m.starts_with("timeout") => {
+            println!("INCONCLUSIVE: {m}");
+            2
+        }
+        Err(m) => {
+            println!("VIOLATION property=C15 replay={path}\n  what: {m}");
+            1
+        }
+    })
+}
